@@ -127,6 +127,8 @@ def parseCmd {S} (cd : Codec S) (toks : List String) : Option (Cmd S) :=
   | ["matmul", w, a, ta, b, tb, c] => do
     pure (.matmul w a (← parseT ta) b (← parseT tb) (if c == "-" then none else some c))
   | ["conv", w, a, f, sr, sc'] => do pure (.conv w a f (← sr.toNat?) (← sc'.toNat?))
+  | ["matmulat", a, ta, b, tb, c, i] => do
+    pure (.matmulat a (← parseT ta) b (← parseT tb) (if c == "-" then none else some c) (← parseNats i))
   | ["cop", k, w, args] => do pure (.cop (← k.toNat?) w (← parseNames args))
   | ["backward", v, s] => some (.backward v (if s == "-" then none else some s))
   | ["backwardc", v, s] => some (.backwardc v s)
